@@ -1,4 +1,4 @@
-CONSTANTS NStates = {1, 2, 3}  MaxDur = 2  VLens = {1}  Salts = {0, 1}  WinSets = {1, 2, 3, 4, 5, 6, 7}
+CONSTANTS NStates = {1, 2, 3}  MaxDur = 2  VLens = {1}  Salts = {0, 1}  WinSets = {1, 2, 3, 4, 5, 6, 7, 8, 9}
 SPECIFICATION Spec
 INVARIANTS Structure Emit
 CHECK_DEADLOCK FALSE
